@@ -53,7 +53,7 @@ OUTSIDE = ["requests needing more than 3 spawns in one adjustment (cut, counted)
 
 def BOUNDS(tier):
     return {"active_children": "0..3", "released_children": "0..1" if tier == "quick" else "0..2",
-            "spawns_per_adjustment": 3, "cycles": 1 if tier == "quick" else
+            "spawns_per_adjustment": "3 (children of symbolic demand); 0..%d unit-demand children in grow_many" % (100 if tier == "quick" else 300), "cycles": 1 if tier == "quick" else
             "1, and 2 with (active children, spawns per adjustment) in {(0,2), (1,2), (2,1)}"}
 
 
@@ -138,6 +138,9 @@ def _check_adjust(ctx, w, pre, target, kind, tag=""):
     ctx.require(not (set(map(id, H1)) & set(map(id, M1))), tag + "no child both active and released")
     ctx.require(all(k in M1 for k in M0), tag + "released children stay released")
     ctx.require(all(k not in H1 for k in M0), tag + "released children are never active again")
+    # the harness holds every child strongly, so none can drop out of the weak set of released children
+    ctx.require(all(k in H1 or k in M1 for k in H0),
+                tag + "a child that stops being active is kept as a released child (its supply still counts)")
     known = set(map(id, w.everyone()))
     ctx.require(all(id(k) in known for k in p.children) and len(p.children) == len(H1) + len(M1),
                 tag + "children are only ever created by the factory")
@@ -203,6 +206,30 @@ def grow(ctx, nh, nm):
     ctx.reach()
     _check_adjust(ctx, w, pre, target, "grow")
     _check_aggregates(ctx, w)
+
+
+def grow_many(ctx, limit):
+    """one adjustment that needs many children: unit-demand children, symbolic integer request in 0..limit.
+    The spawn loop forks once per child, so there is one path per request size."""
+    made = []
+
+    def make():
+        if len(made) > limit:
+            ctx.cut("more than %d spawns" % limit)
+        k = Kid(100 + len(made), demand=1, supply=0, utilisation=1, allocation=1, name="u%d" % len(made))
+        made.append(k)
+        return k
+
+    p = FactoryPool(factory=make, interval=1)
+    target = ctx.num("target", "int")
+    ctx.assume(And(target >= 0, target <= limit))
+    p._grow(target)
+    ctx.reach()
+    ctx.observe("spawned", len(made))
+    active = [k for k in made if k in p._hatchery]
+    ctx.require(_sum(k.demand for k in active) >= target, "after growing the active demand covers the request")
+    ctx.require(len(made) == target, "the request would not be covered without the child spawned last")
+    ctx.require(len(p.children) == len(made), "children are only ever created by the factory")
 
 
 def shrink(ctx, nh, nm):
@@ -335,6 +362,7 @@ def tasks(tier, seed):
         out.append(Task(MOD, "cycles", dict(nh=0, nm=0, n=2, max_spawn=2), weight=50, shards=4))
         out.append(Task(MOD, "cycles", dict(nh=1, nm=0, n=2, max_spawn=2), weight=500, shards=48))
         out.append(Task(MOD, "cycles", dict(nh=2, nm=0, n=2, max_spawn=1), weight=900, shards=64))
+    out.append(Task(MOD, "grow_many", dict(limit=100 if tier == "quick" else 300), model="Z", weight=200))
     out.append(Task(MOD, "bad_factory"))
     for n in range(0, 4):
         out.append(Task(MOD, "init", dict(n=n)))
